@@ -26,6 +26,7 @@ var (
 func init() {
 	ExtraSteps["atMs"] = stepAtMs
 	ExtraSteps["sendPingCur"] = stepSendPingCur
+	ExtraSteps["strayPong"] = stepStrayPong
 	ExtraSteps["stallWatch"] = stepStallWatch
 	ExtraSteps["bpingEvery"] = stepBPingEvery
 }
@@ -93,6 +94,24 @@ func stepSendPingCur(d *Driver, st *Step, g string) {
 		}
 	}
 	inc.sendSync(&message.Ping{RequestID: message.RequestID(rid)}, "BSendPing", "rid", rid)
+}
+
+// strayPong {tag}: the broker sends a Pong nobody is waiting for: tag 0 = once more the id of the latest client ping it received (a
+// duplicate of an answer already given), otherwise the given id (one the client never issued). Logged as BStrayPong - it answers nothing.
+func stepStrayPong(d *Driver, st *Step, g string) {
+	inc := d.b.CurInc()
+	if inc == nil {
+		return
+	}
+	rid := st.Tag
+	if rid == 0 {
+		for _, e := range d.rec.Snapshot() {
+			if e["ev"] == "BRecvPing" && e["c"] == inc.c {
+				rid = e["rid"].(int)
+			}
+		}
+	}
+	inc.sendSync(&message.Pong{RequestID: message.RequestID(rid)}, "BStrayPong", "rid", rid)
 }
 
 func stepStallWatch(d *Driver, st *Step, g string) {
